@@ -16,6 +16,18 @@ func (fc *fnCtx) checkAssigns(st *State, pos token.Pos) {
 		switch tg.kind {
 		case "everything":
 			return
+		case "except":
+			for _, h := range fc.heapOrder {
+				keep := false
+				for _, k := range tg.heaps {
+					if k == h {
+						keep = true
+					}
+				}
+				if !keep {
+					allowedHeap[h] = true
+				}
+			}
 		case "heap":
 			for _, h := range tg.heaps {
 				allowedHeap[h] = true
